@@ -202,7 +202,8 @@ pub fn render_with(
 
 pub fn gen_case_shape(u: &mut U, shape: Shape, max_data: usize) -> TxCase {
     let (model, to_form) = gen_model(u, shape, max_data);
-    let doc = render_with(&model, shape, &to_form, u, &mut |_, x, u| plain_number(x, u)).render();
+    let style = u.u64();
+    let doc = render_with(&model, shape, &to_form, u, &mut |_, x, u| plain_number(x, u)).render_styled(style);
     TxCase { doc, model, to_form }
 }
 
